@@ -2,6 +2,7 @@ package e3
 
 import (
 	"bytes"
+	"crypto/sha256"
 	"encoding/base64"
 	"encoding/binary"
 	"encoding/hex"
@@ -13,6 +14,7 @@ import (
 
 	"github.com/skycoin/skycoin/src/cipher"
 	"github.com/skycoin/skycoin/src/cipher/crypto"
+	secp256k1 "github.com/skycoin/skycoin/src/cipher/secp256k1-go"
 	"github.com/skycoin/skycoin/src/wallet"
 
 	"verifsim/model"
@@ -78,7 +80,8 @@ func runDerive(c *sim.Ctx) {
 	mn := mnemonic(0, si)
 	switch typ {
 	case wallet.WalletTypeDeterministic:
-		seed = fmt.Sprintf("det seed %d of the pool", si)
+		// a deterministic wallet's seed is an arbitrary string: blanks, tabs and line ends around it are part of it
+		seed = []string{"det seed 0 of the pool", "det seed 1 of the pool\n", " \tdet seed 2 of the pool", "det seed 3 of the pool  "}[si]
 	case wallet.WalletTypeBip44:
 		seed = mn
 		if t.Bool("passphrase") {
@@ -427,6 +430,49 @@ func runEncrypt(c *sim.Ctx) {
 		}
 	}
 	c.Count("probe.unlock_roundtrip")
+	// (2a) other wallets are locked and unlocked by the same process in between (a large one needs many cipher
+	// blocks): the locked wallet must still open with its password afterwards, and so must one locked before
+	if t.Chance("other-wallets-in-between", 1, 3) {
+		big := bigWallet()
+		bw := big.Clone()
+		bw.SetCryptoType(ct)
+		first := t.Bool("big-first")
+		var small wallet.Wallet
+		if first {
+			// the large wallet goes through the cipher first, then a fresh copy of the small one is locked
+			if err := bw.Lock([]byte("big-pw")); err != nil {
+				sim.Harnessf("lock big wallet: %v", err)
+			}
+			small = uw.Clone()
+			if err := small.Lock(pw); err != nil {
+				sim.Harnessf("Lock: %v", err)
+			}
+		} else {
+			small = w
+			if err := bw.Lock([]byte("big-pw")); err != nil {
+				sim.Harnessf("lock big wallet: %v", err)
+			}
+		}
+		ubw, err := bw.Unlock([]byte("big-pw"))
+		if err != nil {
+			c.Violate("unlock-failed", "big:"+string(ct), "unlocking a wallet of %d entries with its password fails: %v", 30, err)
+			return
+		}
+		if strings.Join(secretsOf(ubw), "|") != strings.Join(secretsOf(big), "|") {
+			c.Violate("unlock-restores-different-secrets", "big:"+string(ct), "unlocking a wallet of %d entries restored different secrets", 30)
+			return
+		}
+		us, err := small.Unlock(pw)
+		if err != nil {
+			c.Violate("unlock-failed", typ+":"+string(ct)+":after-other-wallets", "after a wallet of %d entries went through the same cipher, unlocking with the same password fails: %v", 30, err)
+			return
+		}
+		if strings.Join(secretsOf(us), "|") != strings.Join(secrets, "|") {
+			c.Violate("unlock-restores-different-secrets", typ+":"+string(ct)+":after-other-wallets", "unlocking after another wallet went through the cipher restored different secrets")
+			return
+		}
+		c.Count("fault.other_wallet_through_cipher_in_between")
+	}
 	// (2b) a bip44 wallet can derive addresses while it is locked (it keeps its public chain
 	// keys); unlocking afterwards must restore the secret key of every entry, old and new
 	if typ == wallet.WalletTypeBip44 && t.Chance("generate-while-locked", 2, 3) {
@@ -457,6 +503,47 @@ func runEncrypt(c *sim.Ctx) {
 					c.Violate("unlock-restores-different-secrets", typ+":entry-generated-while-locked", "after unlock, entry %d (change=%v) generated while the wallet was locked has a different key than the seed derives", i, change)
 					return
 				}
+			}
+		}
+	}
+
+	// (2d) ciphertexts that are consistent in every outer respect (checksum, nonce, whole blocks, inner hash valid
+	// for this password) but whose inner length field lies: only somebody who knows the password can make one, e.g.
+	// a buggy or hostile tool writing the wallet file.  Decrypt must refuse a length that exceeds the data, never panic.
+	if ct == crypto.CryptoTypeSha256Xor {
+		cr, err := crypto.GetCrypto(ct)
+		if err != nil {
+			sim.Harnessf("GetCrypto: %v", err)
+		}
+		for r := 0; r < 3 && !c.Failed(); r++ {
+			blocks := []int{1, 2, 3, 4, 7, 8, 15, 16, 27}[t.Int("craft-blocks", 9)]
+			n := blocks*32 - 4 - t.Int("craft-slack", 32) // data bytes: fills `blocks` blocks together with the 4-byte length
+			if n < 0 {
+				n = 0
+			}
+			data := t.Bytes("craft-data", n)
+			padded := (4 + n + 31) / 32 * 32
+			avail := padded - 4
+			lie := []int{avail + 1, avail + 2, avail + 3, avail + 4, avail + 5, n + 1, avail, 1 << 31, -1}[t.Int("craft-lie", 9)]
+			if lie == -1 {
+				lie = int(^uint32(0))
+			}
+			enc := craftSha256Xor(data, pw, uint32(lie), t.Bytes("craft-nonce", 32))
+			out, derr := tryDecrypt(cr, enc, pw)
+			c.Count("fault.crafted_ciphertext_with_lying_length")
+			c.Kind(30, derr == nil)
+			c.Logf("crafted ciphertext: %d data bytes in %d blocks, length field %d -> %v", n, padded/32, lie, derr)
+			if p, isPanic := derr.(panicked); isPanic {
+				c.Violate("decrypt-panics", string(ct)+":crafted-length:"+p.where, "decrypting a well-formed ciphertext whose inner length field is %d (data %d bytes, %d after padding) panics: %v", lie, n, avail, p.val)
+				return
+			}
+			if lie > avail && derr == nil {
+				c.Violate("corrupted-ciphertext-accepted", string(ct)+":crafted-length", "a ciphertext whose inner length field (%d) exceeds its data (%d bytes after padding) decrypted without an error (to %d bytes)", lie, avail, len(out))
+				return
+			}
+			if lie <= avail && derr == nil && !bytes.Equal(out, append(append([]byte{}, data...), make([]byte, padded)...)[:lie]) {
+				c.Violate("corrupted-ciphertext-accepted", string(ct)+":crafted-content", "a crafted ciphertext decrypted to bytes that were never encrypted")
+				return
 			}
 		}
 	}
@@ -535,6 +622,69 @@ func runEncrypt(c *sim.Ctx) {
 			return
 		}
 	}
+}
+
+// craftSha256Xor builds a sha256-xor ciphertext from the format description (base64 of checksum | nonce | encrypted
+// blocks; block 0 is the hash of the padded plaintext, the plaintext starts with a 4-byte length), independently of
+// the package under test, with an arbitrary value in the length field.
+func craftSha256Xor(data, password []byte, lenField uint32, nonce []byte) []byte {
+	ldata := make([]byte, 4, 4+len(data)+32)
+	binary.LittleEndian.PutUint32(ldata, lenField)
+	ldata = append(ldata, data...)
+	for len(ldata)%32 != 0 {
+		ldata = append(ldata, 0)
+	}
+	h := sha256.Sum256(ldata)
+	blocks := append(append([]byte{}, h[:]...), ldata...)
+	key := secp256k1.Secp256k1Hash(password)
+	nh := sha256.Sum256(nonce)
+	enc := make([]byte, 0, len(blocks))
+	for i := 0; i*32 < len(blocks); i++ {
+		idx := make([]byte, 32)
+		binary.PutVarint(idx, int64(i))
+		inh := sha256.Sum256(append(idx, nh[:]...))
+		k := sha256.Sum256(append(append([]byte{}, key[:32]...), inh[:]...))
+		for j := 0; j < 32; j++ {
+			enc = append(enc, blocks[i*32+j]^k[j])
+		}
+	}
+	body := append(append([]byte{}, nonce...), enc...)
+	cs := sha256.Sum256(body)
+	return []byte(base64.StdEncoding.EncodeToString(append(cs[:], body...)))
+}
+
+func tryDecrypt(cr crypto.Cryptor, enc, pw []byte) (out []byte, err error) {
+	defer func() {
+		if r := recover(); r != nil {
+			where := "other"
+			msg := fmt.Sprint(r)
+			switch {
+			case strings.Contains(msg, "slice bounds"):
+				where = "slice-bounds"
+			case strings.Contains(msg, "index out of range"):
+				where = "index"
+			case strings.Contains(msg, "makeslice"):
+				where = "makeslice"
+			}
+			err = panicked{r, where}
+		}
+	}()
+	return cr.Decrypt(enc, pw)
+}
+
+var bigW wallet.Wallet
+
+// bigWallet: a deterministic wallet of 30 entries (its secrets need about a hundred cipher blocks), built once
+// per worker process from a fixed seed.
+func bigWallet() wallet.Wallet {
+	if bigW == nil {
+		w, err := mkWallet(wallet.WalletTypeDeterministic, "the big wallet of the C18 runs", "", "", nil, 30)
+		if err != nil {
+			sim.Harnessf("create big wallet: %v", err)
+		}
+		bigW = w
+	}
+	return bigW
 }
 
 type panicked struct {
